@@ -348,6 +348,7 @@ ADD_ONLY = {
     "add_edges_from_5", "add_weighted_edges_from", "update", "add_simplex", "add_simplex_none",
     "add_simplices_from_1", "add_simplices_from_2", "add_simplices_from_3", "add_simplices_from_4",
     "add_simplices_from_5", "add_weighted_simplices_from", "dep_add_edge", "dep_add_edges_from",
+    "add_simplices_from_maxorder",
 }
 
 HEAVY_H = {
@@ -675,6 +676,22 @@ def s_add_simplices_from_5(ctx, S, P):
     S.add_simplices_from(eb, max_order=mo)
 
 
+def s_add_simplices_from_maxorder(ctx, S, P):
+    """One large simplex (4 or 5 brand-new vertices) under every max_order: the
+    truncation path (powerset of the members) is what the small bulk ops miss."""
+    k = 4 + ctx.choose("k5", 2)
+    mem = _members(ctx, k)
+    ctx.assume(*[mem[i] != mem[j] for i in range(k) for j in range(i)], *[m != n for m in mem for n in S._node])
+    mo = [0, 1, 2, 3][ctx.choose("max_order", 4)]
+    fmt = ctx.choose("fmt", 2)
+    _rec(ctx, members=mem, max_order=mo, fmt=[1, 5][fmt])
+    if fmt == 0:
+        S.add_simplices_from([mem], max_order=mo)
+    else:
+        i = ctx.fresh("i")
+        S.add_simplices_from({i: mem}, max_order=mo)
+
+
 def s_add_weighted_simplices_from(ctx, S, P):
     eb = [tuple(m) + (ctx.fresh("v"),) for m in _sbulk(ctx, P)]
     mo = _max_order(ctx, P)
@@ -775,6 +792,7 @@ OPS_S = {
         s_add_simplices_from_4,
         s_add_simplices_from_5,
         s_add_weighted_simplices_from,
+        s_add_simplices_from_maxorder,
         s_remove_simplex_id,
         s_remove_simplex_ids_from,
         s_remove_node,
